@@ -296,6 +296,11 @@ class Gen:
             out += self.stmt(ctx, s, in_loop)
         return out
 
+    def finish_def(self, name, term):
+        if 'BRKMARK' in term:
+            raise Untranslatable('break/continue not enclosed by a loop in %s' % name)
+        self.defs.append((name, term))
+
     def seq(self, terms):
         if not terms:
             return 'Skip'
@@ -344,7 +349,9 @@ class Gen:
         if isinstance(s, ast.Try):
             return self.try_stmt(ctx, s, in_loop)
         if isinstance(s, (ast.Break, ast.Continue)):
-            self.refuse(ctx, s, 'break/continue outside the recognised `head` test')
+            if not in_loop:
+                self.refuse(ctx, s, 'break/continue outside a loop')
+            return ['BRKMARK']     # accepted by for_stmt only in a loop without any effect on the world
         self.refuse(ctx, s, 'statement kind %s not supported' % type(s).__name__)
 
     def calls_with_steps(self, ctx, node):
@@ -399,6 +406,14 @@ class Gen:
         lbl = self.label(ctx.fname, 'next(%s)' % ast.unparse(s.iter)[:40])
         lid = self.loop_id(ctx.fname, s)
         body = self.walk(ctx, s.body, in_loop=True)
+        btxt = ' '.join(body)
+        if 'BRKMARK' in btxt:
+            # skipping steps that have no effect on the world does not change the reachable worlds
+            import re as _re
+            effectful = hdr != 'ENop' or _re.search(r'EUnit|EWriteOut|EIndex|ERemove|EStatus|_body|_pre|_post|Raise', btxt)
+            if effectful:
+                self.refuse(ctx, s, 'break/continue in a loop that writes records or touches the output')
+            body = [b.replace('BRKMARK', 'Skip') for b in body]
         if not body and hdr == 'ENop' and not pre:
             # a loop without any call: no crash point, no effect
             self.labels = self.labels[:mark[0]]
@@ -530,7 +545,7 @@ class Gen:
         if name == 'sorted_bam_file':
             self.build_cm(ctx, fdef)
         else:
-            self.defs.append(('%s_body' % name, self.seq(self.walk(ctx, fdef.body))))
+            self.finish_def('%s_body' % name, self.seq(self.walk(ctx, fdef.body)))
         self.record(rel, fdef)
         self.built[name] = True
 
@@ -552,8 +567,8 @@ class Gen:
         i = idx[0]
         pre = self.walk(ctx, fdef.body[:i])
         post = self.walk(ctx, fdef.body[i + 1:])
-        self.defs.append(('sorted_bam_file_pre', self.seq(pre)))
-        self.defs.append(('sorted_bam_file_post', self.seq(post)))
+        self.finish_def('sorted_bam_file_pre', self.seq(pre))
+        self.finish_def('sorted_bam_file_post', self.seq(post))
 
     def record(self, rel, fdef):
         tree, src = self.trees[rel]
@@ -583,7 +598,7 @@ class Gen:
         if len(withs) != 1:
             raise Untranslatable('run_tagging_tasks: expected one top-level with block')
         ctx = Ctx(self, 'run_tagging_tasks', rt, [ast.Name('target_file', ast.Load())], TG)
-        self.defs.append(('worker_body', self.seq(self.walk(ctx, [withs[0]]))))
+        self.finish_def('worker_body', self.seq(self.walk(ctx, [withs[0]])))
         self.record(TG, rt)
         # main
         run = self.funcs.get((TM, 'run_multiome_tagging'))
@@ -594,7 +609,7 @@ class Gen:
         for n in ast.walk(run):
             if isinstance(n, ast.Attribute) and isinstance(n.ctx, (ast.Store, ast.Del)) and ast.unparse(n) == 'args.o':
                 self.refuse(ctx, n, 'args.o is re-assigned')
-        self.defs.append(('pipeline', self.seq(self.walk(ctx, run.body))))
+        self.finish_def('pipeline', self.seq(self.walk(ctx, run.body)))
         self.record(TM, run)
         for need in ('tag_multiome_single_thread', 'tag_multiome_multi_processing', 'sorted_bam_file', 'sort_and_index', 'merge_bams'):
             if not self.built.get(need):
@@ -805,6 +820,7 @@ class Prop(fw.PropBase):
                 add(cfg, [F('worker', after=k)])
             n = self.n_mol[cfg]
             wk = sorted(set([0, 1, n // 2])) if quick else range(0, n, max(1, n // 12))
+            wk = [k for k in wk if k < n]
             for k in wk:
                 add(cfg, [F('write_pysam', after=k, where='worker')])
                 add(cfg, [F('mol_next', after=k, where='worker')])
